@@ -237,13 +237,14 @@ theorem guard_case_insensitive (t1 t2 : List Nat) (h : t1.map lower = t2.map low
   unfold Pragma.guard
   rw [← lex_lower t1, ← lex_lower t2, h]
 
-/-- whitespace, `-- …` line comments and `/* … */` block comments (the latter without
-a star inside, for simplicity of the statement) in any number and order -/
+/-- whitespace, `-- …` line comments and `/* … */` block comments (any body that holds no `*/`:
+stars, slashes, `/*`, a body that starts with a slash or ends in a star are all allowed - SQLite's
+rule: the comment runs to the first `*/` after the opener) in any number and order -/
 inductive Filler : List Nat → Prop where
   | nil : Filler []
   | space (c : Nat) (rest : List Nat) : isSpace c = true → Filler rest → Filler (c :: rest)
   | line (body rest : List Nat) : 10 ∉ body → Filler rest → Filler (45 :: 45 :: (body ++ 10 :: rest))
-  | block (body rest : List Nat) : 42 ∉ body → Filler rest → Filler (47 :: 42 :: (body ++ 42 :: 47 :: rest))
+  | block (body rest : List Nat) : NoClose body = true → Filler rest → Filler (47 :: 42 :: (body ++ 42 :: 47 :: rest))
 
 /-- ∀ filler, ∀ SQL text: filler in front of a text changes neither its tokens nor
 the guard's verdict. -/
@@ -258,7 +259,7 @@ theorem leading_filler_invisible (f : List Nat) (hf : Filler f) (t : List Nat) :
       rw [this, lex_line_comment body hb, ih]
     | block body rest hb _ ih =>
       have : (47 :: 42 :: (body ++ 42 :: 47 :: rest)) ++ t = 47 :: 42 :: (body ++ 42 :: 47 :: (rest ++ t)) := by simp
-      rw [this, lex_block_comment body hb, ih]
+      rw [this, lex_block_comment_general body hb, ih]
   exact ⟨hl, by unfold Pragma.guard; rw [hl]⟩
 
 /-- ∀ token sequences: a statement the guard refuses is refused wherever it stands
@@ -275,6 +276,15 @@ example : Filler (bytesOf " \t-- x\n/* c */\n") := by
   apply Filler.space 9 _ (by decide)
   exact Filler.line (bytesOf " x") _ (by decide)
     (Filler.block (bytesOf " c ") _ (by decide) (Filler.space 10 _ (by decide) Filler.nil))
+
+/-- the comments the seeded change C15d mis-skips are fillers: `/*/ */`, `/*/*/`, `/***/`, `/* /* */` -/
+example : Filler (bytesOf "/*/ */") ∧ Filler (bytesOf "/*/*/") ∧ Filler (bytesOf "/***/") ∧ Filler (bytesOf "/* /* */") :=
+  ⟨Filler.block (bytesOf "/ ") [] (by decide) Filler.nil, Filler.block (bytesOf "/") [] (by decide) Filler.nil,
+   Filler.block (bytesOf "*") [] (by decide) Filler.nil, Filler.block (bytesOf " /* ") [] (by decide) Filler.nil⟩
+
+/-- so a critical PRAGMA behind such a comment is refused like the bare one -/
+example : Pragma.guard ((47 :: 42 :: (bytesOf "/ " ++ 42 :: 47 :: [])) ++ bytesOf "PRAGMA synchronous=2") = true := by
+  rw [(leading_filler_invisible _ (Filler.block (bytesOf "/ ") [] (by decide) Filler.nil) _).2]; decide
 
 /-! ### the guard is applied to every request (regenerated facts) -/
 
